@@ -1,4 +1,4 @@
-import FpgoVerif.Proofs.C04Content
+import FpgoVerif.Proofs.C04MapSpec
 import FpgoVerif.Gen.StreamEffects
 /-! Property theorems for C04 — Stream / Set / StreamSet are persistent.
 
@@ -159,6 +159,87 @@ theorem C04_http_instances_independent {w : World} (hw : Wf w) {p : Nat} (hp : p
   unfold strContent
   rw [f.strs q hq hne]
   simp [sliceContent, harr _ (strHdr_arr_lt hw q)]
+
+/-! ### Set operations: the map the result holds, and what that map means key by key -/
+
+/-- For every Set operation the map held by the RESULT handle is the `Spec` map function of the maps held by the
+    receiver and the argument (`argMap`: a nil argument has no entries).  The statements are uniform over the
+    "returns the receiver itself" cases (no items / nil or empty argument), where the function is the identity. -/
+theorem C04_set_results (w : World) (p : Nat) :
+    ((w.setClone p).1.setMap (w.setClone p).2 = w.setMap p) ∧
+    (∀ f, (w.setMapKey p f).1.setMap (w.setMapKey p f).2 = Spec.mapKeys f (w.setMap p)) ∧
+    (∀ f, (w.setMapVal p f).1.setMap (w.setMapVal p f).2 = Spec.mapVals f (w.setMap p)) ∧
+    (∀ zero items, (w.setAdd p zero items).1.setMap (w.setAdd p zero items).2
+        = items.foldl (fun m k => Spec.insertIfAbsent k zero m) (w.setMap p)) ∧
+    (∀ items, (w.setRemoveKeys p items).1.setMap (w.setRemoveKeys p items).2 = Spec.removeKeys (w.setMap p) items) ∧
+    (∀ vals, (w.setRemoveValues p vals).1.setMap (w.setRemoveValues p vals).2
+        = (w.setMap p).filter (fun kv => !vals.contains kv.2)) ∧
+    (∀ q, (w.setUnion p q).1.setMap (w.setUnion p q).2 = Spec.merge (w.setMap p) (argMap w q)) ∧
+    (∀ q, (w.setInter p q).1.setMap (w.setInter p q).2 = Spec.interByKey (w.setMap p) (argMap w q)) ∧
+    (∀ q, (w.setMinus p q).1.setMap (w.setMinus p q).2 = Spec.minusByKey (w.setMap p) (argMap w q)) := by
+  refine ⟨setMap_newSet _ _, fun _ => setMap_newSet _ _, fun _ => setMap_newSet _ _, ?_, ?_, ?_, ?_, ?_, ?_⟩
+  · intro zero items
+    unfold setAdd; split
+    · rename_i h; rw [isEmpty_eq_nil h]; rfl
+    · exact setMap_newSet _ _
+  · intro items
+    unfold setRemoveKeys; split
+    · rename_i h; rw [isEmpty_eq_nil h]; simp [Spec.removeKeys, filter_const_true]
+    · exact setMap_newSet _ _
+  · intro vals
+    unfold setRemoveValues; split
+    · rename_i h; rw [isEmpty_eq_nil h]; simp [filter_const_true]
+    · exact setMap_newSet _ _
+  · intro q
+    cases q with
+    | none => rfl
+    | some q =>
+      simp only [setUnion, argMap]; split
+      · rename_i h; rw [isEmpty_eq_nil h]; rfl
+      · exact setMap_newSet _ _
+  · intro q
+    cases q with
+    | none => simp [setInter, argMap, setMap_newNilSet, Spec.interByKey, Spec.hasKey, Spec.lookup]
+    | some q =>
+      simp only [setInter, argMap]; split
+      · rename_i h; rw [isEmpty_eq_nil h]
+        simp [setMap_newNilSet, Spec.interByKey, Spec.hasKey, Spec.lookup]
+      · exact setMap_newSet _ _
+  · intro q
+    cases q with
+    | none => simp [setMinus, argMap, Spec.minusByKey, Spec.hasKey, Spec.lookup, filter_const_true]
+    | some q =>
+      simp only [setMinus, argMap]; split
+      · rename_i h; rw [isEmpty_eq_nil h]; simp [Spec.minusByKey, Spec.hasKey, Spec.lookup, filter_const_true]
+      · exact setMap_newSet _ _
+
+/-- Key/value meaning of those map functions (`Spec.lookup k m` = the value stored under `k`, if any):
+    * `Set`/assignment: the assigned key reads the new value, every other key is unchanged;
+    * `Add`: present keys keep their value, missing items get the zero value, nothing else appears;
+    * `Union` (`Merge`): the ARGUMENT's value wins on common keys (its last assignment, `reverse`), other keys of
+      either side are kept;
+    * `RemoveKeys` / `Intersection` / `Minus`: exactly the receiver's entries whose key is not listed / is / is not
+      a key of the argument, with the receiver's values;
+    * `MapValue`: same keys, transformed values;
+    * `RemoveValues`: exactly the receiver's entries whose value is not listed. -/
+theorem C04_map_laws {β : Type} [BEq β] (k : Int) (m m₂ : List (Int × β)) :
+    (∀ k' v, Spec.lookup k (Spec.insert k' v m) = if k' = k then some v else Spec.lookup k m) ∧
+    (∀ (zero : β) (items : List Int), Spec.lookup k (items.foldl (fun m k => Spec.insertIfAbsent k zero m) m)
+        = match Spec.lookup k m with
+          | some x => some x
+          | none => if items.contains k then some zero else none) ∧
+    (Spec.lookup k (Spec.merge m m₂) = match Spec.lookup k m₂.reverse with
+          | some v => some v
+          | none => Spec.lookup k m) ∧
+    (∀ ks, Spec.lookup k (Spec.removeKeys m ks) = if ks.contains k then none else Spec.lookup k m) ∧
+    (Spec.lookup k (Spec.interByKey m m₂) = if Spec.hasKey k m₂ then Spec.lookup k m else none) ∧
+    (Spec.lookup k (Spec.minusByKey m m₂) = if Spec.hasKey k m₂ then none else Spec.lookup k m) ∧
+    (∀ f, Spec.lookup k (Spec.mapVals f m) = (Spec.lookup k m).map f) ∧
+    (∀ (vals : List β) kv, kv ∈ m.filter (fun kv => !vals.contains kv.2) ↔ kv ∈ m ∧ vals.contains kv.2 = false) :=
+  ⟨fun k' v => Spec.lookup_insert k k' v m, fun zero items => Spec.lookup_add k zero items m,
+   Spec.lookup_merge k m m₂, Spec.lookup_removeKeys k m, Spec.lookup_interByKey k m m₂,
+   Spec.lookup_minusByKey k m m₂, fun f => Spec.lookup_mapVals k f m,
+   fun vals kv => by simp [List.mem_filter]⟩
 
 /-! ### results: the elements the sequence definition prescribes -/
 
